@@ -1212,6 +1212,44 @@ def _pred_by_variant(c, clo, it, elem):
     return out
 
 
+def _universal_outcome(c, s_u, it, loc, clo, b, univ, elem):
+    """the outcome of a quantified query that speaks about every remaining element (any == false / all == true / position == None): recorded
+    on the summary element of the container a plain `iter()` walks over — variants for which the predicate gives the excluded answer are
+    removed; if no element could give the outcome, the container is empty.  May raise Infeasible."""
+    src = it.start if isinstance(it.start, tuple) and it.extra == "ref" else None
+    if b.is_const() and b.lo == 1 - univ:
+        # the predicate gives the excluded answer for every possible element: the universal outcome means there was no element
+        rv_ = (loc[0], loc[1] + ("rem",)) if loc is not None else None
+        if rv_ is not None and s_u.leaf(rv_) is not None:
+            c.I.assume_var(s_u, rv_, 0, True)
+        if src is not None:
+            cur0 = c.I.read_loc(s_u, src)
+            if isinstance(cur0, Arr) and s_u.leaf((src[0], src[1] + ("len",))) is not None:
+                c.I.assume_var(s_u, (src[0], src[1] + ("len",)), 0, True)
+    elif src is not None and isinstance(clo, Closure):
+        cur = c.I.read_loc(s_u, src)
+        if isinstance(cur, Arr):
+            tabs = _pred_by_variant(c, clo, it, cur.elem if not cur.elem.is_bot() else elem)
+            new_elem = cur.elem
+            empty_only = False
+            for path, tab in tabs.items():
+                e = get_at(new_elem, path)
+                if not isinstance(e, Enum):
+                    continue
+                keep = {i: e.variants[i] for i in e.variants if tab.get(i) != (1 - univ)}
+                if not keep:
+                    empty_only = True
+                elif len(keep) < len(e.variants):
+                    new_elem = set_at(new_elem, path, Enum(e.path, keep))
+            if empty_only:
+                # no element can satisfy the outcome: the container is empty
+                lv = (src[0], src[1] + ("len",))
+                c.I.assume_var(s_u, lv, 0, True)
+            elif new_elem is not cur.elem:
+                s_u.cells[src[0]] = set_at(s_u.cells[src[0]], src[1], Arr(cur.len, new_elem, None, cur.container, cur.view_of))
+
+
+
 @model("std::iter::Iterator::any", "std::iter::Iterator::all")
 def m_any_all(c):
     r, _ = c.arg(0)
@@ -1258,36 +1296,7 @@ def m_any_all(c):
     c.ret(Int.const(1 - univ, 1, False), st=s_other)
     s_u = c.st
     try:
-        if b.is_const() and b.lo == 1 - univ:
-            # the predicate gives the excluded answer for every possible element: the universal outcome means there was no element
-            rv_ = (loc[0], loc[1] + ("rem",)) if loc is not None else None
-            if rv_ is not None and s_u.leaf(rv_) is not None:
-                c.I.assume_var(s_u, rv_, 0, True)
-            if src is not None:
-                cur0 = c.I.read_loc(s_u, src)
-                if isinstance(cur0, Arr) and s_u.leaf((src[0], src[1] + ("len",))) is not None:
-                    c.I.assume_var(s_u, (src[0], src[1] + ("len",)), 0, True)
-        elif src is not None and isinstance(clo, Closure):
-            cur = c.I.read_loc(s_u, src)
-            if isinstance(cur, Arr):
-                tabs = _pred_by_variant(c, clo, it, cur.elem if not cur.elem.is_bot() else elem)
-                new_elem = cur.elem
-                empty_only = False
-                for path, tab in tabs.items():
-                    e = get_at(new_elem, path)
-                    if not isinstance(e, Enum):
-                        continue
-                    keep = {i: e.variants[i] for i in e.variants if tab.get(i) != (1 - univ)}
-                    if not keep:
-                        empty_only = True
-                    elif len(keep) < len(e.variants):
-                        new_elem = set_at(new_elem, path, Enum(e.path, keep))
-                if empty_only:
-                    # no element can satisfy the outcome: the container is empty
-                    lv = (src[0], src[1] + ("len",))
-                    c.I.assume_var(s_u, lv, 0, True)
-                elif new_elem is not cur.elem:
-                    s_u.cells[src[0]] = set_at(s_u.cells[src[0]], src[1], Arr(cur.len, new_elem, None, cur.container, cur.view_of))
+        _universal_outcome(c, s_u, it, loc, clo, b, univ, elem)
         c.ret(Int.const(univ, 1, False), st=s_u)
     except Infeasible:
         pass
@@ -1302,11 +1311,21 @@ def m_position(c):
         c.ret_top()
         return
     rem, l, elem = iter_remaining(c, it, loc)
-    cell = new_tmp(c, c.st, elem if elem is not None and not elem.is_bot() else Top(), "poselem")
-    _closure_bools(c, clo, (Ref(cell, ()) if it.extra != "val" else elem, None))
-    s0 = c.fork()
-    c.ret(opt_none(), st=s0)
-    if rem.hi >= 1:
+    el0 = elem if elem is not None and not elem.is_bot() else Top()
+    if it.cells:
+        for x in it.cells.values():
+            el0 = join_val(el0, x)
+    cell = new_tmp(c, c.st, el0, "poselem")
+    b = _closure_bools(c, clo, (Ref(cell, ()) if it.extra != "val" else el0, None))
+    if not (b.is_const() and b.lo == 1 and rem.lo >= 1):
+        # None: the predicate was false for every remaining element (as any() == false)
+        s0 = c.fork()
+        try:
+            _universal_outcome(c, s0, it, loc, clo, b, 0, el0)
+            c.ret(opt_none(), st=s0)
+        except Infeasible:
+            pass
+    if rem.hi >= 1 and not (b.is_const() and b.lo == 0):
         s1 = c.st
         idx = usize(0, rem.hi - 1)
         c.ret(opt_some(idx), st=s1)
